@@ -45,6 +45,7 @@ func ruleC01(c *Ctx, r *Report) {
 	c01Loops(c, r, p)
 	tablePolicyRule(c, r, "C01-R4")
 	lastKeyLookupRule(c, r, "C01-R4")
+	operatorMapDescentRule(c, r, "C01-R4")
 	c01FlagWiring(c, r, an)
 	c01Remote(c, r, p)
 }
@@ -1015,4 +1016,119 @@ func (p *Prov) memberKeys(fn *ssa.Function, v ssa.Value, at *ssa.BasicBlock) (re
 		}
 	}
 	return nil, nil, false
+}
+
+
+// operatorMapDescentRule (C01-R4): an OperatorMap position (facet.facets, ...) holds a
+// document keyed by names the client chooses; the table that describes one such member
+// (OperatorMapDefs[...]: type, path, numBuckets ...) applies one level BELOW the chosen name.
+// In the table lookup the descent into that definition table must therefore be conditional on
+// a name really having been cut out of the path (the path minus the arbitrary key is shorter
+// than the path). A guard on the remainder after the map key is no guard - that remainder is
+// always shorter - and the definition table then answers for the map key itself: a facet the
+// client called `type` or `numBuckets` is taken for that option and passed through verbatim.
+func operatorMapDescentRule(c *Ctx, r *Report, rule string) {
+	p := c.prov()
+	// functions returning a suffix of their slice parameter (the "everything after the marker" helper)
+	suffixFn := map[*ssa.Function]bool{}
+	for _, f := range c.SortedFuncs() {
+		if len(f.Params) == 0 || !isStringSlice(f.Params[0].Type()) {
+			continue
+		}
+		allInstrs(f, func(i ssa.Instruction) {
+			ret, ok := i.(*ssa.Return)
+			if !ok {
+				return
+			}
+			for _, res := range ret.Results {
+				for _, vs := range sourcesAt(res, ret.Block()) {
+					if sl, ok := peel(vs.Val).(*ssa.Slice); ok && peel(sl.X) == ssa.Value(f.Params[0]) && sl.Low != nil && sl.High == nil {
+						suffixFn[f] = true
+					}
+				}
+			}
+		})
+	}
+	n := 0
+	for _, f := range c.SortedFuncs() {
+		if !p.Scope[f] && !p.Zone[f] {
+			continue
+		}
+		for _, rc := range callsIn(f, func(k string, cc *ssa.Call) bool { return cc.Call.StaticCallee() == f }) {
+			// a recursive lookup whose table argument is read from a definitions table by a key
+			var defs *ssa.Global
+			for _, a := range rc.Call.Args {
+				if !isOrderedMapPtr(a.Type()) {
+					continue
+				}
+				for _, vs := range sourcesAt(a, rc.Block()) {
+					v := peel(vs.Val)
+					if ex, ok := v.(*ssa.Extract); ok {
+						if ta, ok := ex.Tuple.(*ssa.TypeAssert); ok {
+							v = peel(ta.X)
+						}
+					}
+					if ex, ok := v.(*ssa.Extract); ok {
+						if gc, ok := ex.Tuple.(*ssa.Call); ok && calleeKey(&gc.Call) == omMethod("Get") {
+							if ld, ok := gc.Call.Args[0].(*ssa.UnOp); ok {
+								if g, ok := ld.X.(*ssa.Global); ok && g.Pkg == c.SPkg {
+									defs = g
+								}
+							}
+						}
+					}
+				}
+			}
+			if defs == nil {
+				continue
+			}
+			n++
+			// the guard: a length comparison against the path parameter
+			var pathPrm *ssa.Parameter
+			for _, prm := range f.Params {
+				if isStringSlice(prm.Type()) {
+					pathPrm = prm
+				}
+			}
+			okGuard, why := false, "the descent into the definition table is not guarded by a length comparison with the path"
+			for _, fc := range allFacts(rc.Block()) {
+				bo, ok := fc.Cond.(*ssa.BinOp)
+				if !ok {
+					continue
+				}
+				lenOf := func(v ssa.Value) ssa.Value {
+					if lc, ok := v.(*ssa.Call); ok && calleeKey(&lc.Call) == "builtin len" {
+						return lc.Call.Args[0]
+					}
+					return nil
+				}
+				a, b := lenOf(bo.X), lenOf(bo.Y)
+				if a == nil || b == nil {
+					continue
+				}
+				other := a
+				if peel(a) == ssa.Value(pathPrm) {
+					other = b
+				} else if peel(b) != ssa.Value(pathPrm) {
+					continue
+				}
+				vacuous := false
+				for _, vs := range sourcesAt(other, rc.Block()) {
+					if call, ok := peel(vs.Val).(*ssa.Call); ok {
+						if g := c.staticPkgCallee(&call.Call); g != nil && suffixFn[g] {
+							vacuous = true
+						}
+					}
+				}
+				if vacuous {
+					why = "the guard compares the path with the remainder after the map key, which is always shorter: the definition table of the map's members answers for the map key itself, so a member the client named like one of its options (a facet called type / numBuckets) is passed through verbatim"
+				} else {
+					okGuard = true
+				}
+			}
+			r.Check(okGuard, rule, fmt.Sprintf("%s:definition-table-applies-below-the-chosen-name(%s)", f.Name(), defs.Name()), c.InstrPos(rc),
+				"the definition table of an OperatorMap position is entered only when a client-chosen name was cut out of the path", why)
+		}
+	}
+	r.Analysed["operator_map_descents"] = n
 }
